@@ -121,9 +121,11 @@ def _verus_prop(prop, tier, seed, unit_filters, meta_extra, extra_obs=None):
 
 
 def c02(tier, seed):
-    return _verus_prop("C02", tier, seed, [("layout", None, None)], {
+    return _verus_prop("C02", tier, seed, [("layout", None, None), ("prim_types", None, None), ("packed", None, None)], {
         "trusted_base": LAYOUT_TRUST,
-        "functions_under_contract": LAYOUT_FNS,
+        "functions_under_contract": LAYOUT_FNS + [
+            "bindgen/codegen/helpers.rs: ast_ty::int_kind_rust_type, ast_ty::float_kind_rust_type (unit prim_types: fixed-width kinds get a Rust integer of the same width and sign; platform kinds the std::os::raw alias documented as equivalent; wchar_t / long double / __float128 a type of exactly the C size)",
+            "bindgen/ir/comp.rs: CompInfo::already_packed (unit packed: Some(true) exactly when dropping `packed` moves no field)"],
         "assumptions": [
             "placement theorem (saw_field_with_layout post#4) region: not packed, not a union, clang reported the field offset (multiple of 8 bits, >= running offset, multiple of the field alignment), the Rust struct built so far ends at the tracker's running offset and that is a multiple of the previous field's alignment; the Rust type of the field has the alignment clang reports",
             "size theorem (pad_struct post#3) region: C size >= running offset and multiple of the C alignment <= 8, last field not a bit-field, packed only with alignment 1, and NOT (padding >= 8 emitted with alignment 8 from an offset/length that is not a multiple of 8) -- that sub-region is unverified (no real input known that reaches it)",
@@ -133,7 +135,7 @@ def c02(tier, seed):
             "CompInfo::codegen: the order of saw_* calls, repr/packed attribute selection (CompInfo::is_packed, already_packed), that returned padding tokens are emitted in place",
             "StructLayoutTracker::saw_field (array 'ultra hack', needs live IR), ::new",
             "packed structs, unions and fields after a bit-field unit are covered by invariant + safety only",
-            "int_kind_rust_type / float_kind_rust_type / Enum::codegen repr (need a live context); C++ tail-padding reuse",
+            "raw_type's prefix/core/std selection (trusted to name the alias), Enum::codegen repr translation, CompInfo::is_packed (closure capturing &mut), the repr/packed/align attribute assembly inside CompInfo::codegen; C++ tail-padding reuse",
         ]})
 
 
@@ -162,7 +164,7 @@ def _from_str_witnesses():
 
 def c12(tier, seed):
     units = [("layout", None, r"^(safety|decreases.*)$"), ("bf_alloc", None, r"^(safety|decreases.*)$"), ("macro_type", None, r"^safety$"),
-             ("edges", None, r"^safety$"), ("derive_gate", None, r"^safety$"), ("derives", None, r"^safety$"), ("fn_abi", None, r"^safety$"), ("constrain", None, r"^safety$")]
+             ("edges", None, r"^safety$"), ("derive_gate", None, r"^safety$"), ("derives", None, r"^safety$"), ("fn_abi", None, r"^safety$"), ("constrain", None, r"^safety$"), ("prim_types", None, r"^safety$"), ("packed", None, r"^(safety|decreases.*)$")]
     return _verus_prop("C12", tier, seed, units, {
         "trusted_base": LAYOUT_TRUST + ["alloc::fmt::format stubbed in the from_str witness harnesses (message text irrelevant)"],
         "functions_under_contract": LAYOUT_FNS + ["bindgen/ir/comp.rs: bitfields_to_allocation_units (no-clang-offset mode)", "and the functions of units macro_type, edges, derive_gate, derives, fn_abi (see C05, C07-C09, C14)"],
